@@ -58,7 +58,7 @@ theorem dedup_ancestor (g : PGraph Str) (hc : HierClosed g) (S : List Filter)
       intro f hf hl
       refine ⟨f, (mem_dedupSubjects S f).2 ⟨hf, fun o _ => ?_⟩, .refl _⟩
       cases h : isStrictSub o.id f.id
-      · rfl
+      · exact Bool.and_false _
       · have := isStrictSub_length _ _ h; omega
     | succ n ih =>
       intro f hf hl
@@ -70,7 +70,7 @@ theorem dedup_ancestor (g : PGraph Str) (hc : HierClosed g) (S : List Filter)
           apply hd
           refine (mem_dedupSubjects S f).2 ⟨hf, fun o ho => ?_⟩
           cases h : isStrictSub o.id f.id
-          · rfl
+          · exact Bool.and_false _
           · exact absurd ⟨o, ho, h⟩ hno
         obtain ⟨o, ho, hs⟩ := this
         have hlt := isStrictSub_length _ _ hs
@@ -88,7 +88,7 @@ theorem dedupSubjects_ne_nil (S : List Filter) (hne : S ≠ []) : dedupSubjects 
       intro f hf hl
       refine ⟨f, (mem_dedupSubjects S f).2 ⟨hf, fun o _ => ?_⟩⟩
       cases h : isStrictSub o.id f.id
-      · rfl
+      · exact Bool.and_false _
       · have := isStrictSub_length _ _ h; omega
     | succ n ih =>
       intro f hf hl
@@ -100,7 +100,7 @@ theorem dedupSubjects_ne_nil (S : List Filter) (hne : S ≠ []) : dedupSubjects 
           apply hd
           refine (mem_dedupSubjects S f).2 ⟨hf, fun o ho => ?_⟩
           cases h : isStrictSub o.id f.id
-          · rfl
+          · exact Bool.and_false _
           · exact absurd ⟨o, ho, h⟩ hno
         obtain ⟨o, ho, hs⟩ := this
         have hlt := isStrictSub_length _ _ hs
